@@ -562,3 +562,70 @@ by rewrite hornerD hornerN hornerC hornerXn subrr.
 Qed.
 
 End AnnRoots3.
+
+(* ---------------------------------------------------------------- the slow reference: Laplace expansion (pdet, bires_ref) *)
+Lemma remove_nth_drop (T : Type) (j : nat) (l : seq T) : remove_nth j l = sy_drop_nth T j l.
+Proof. by elim: l j => [|x l IH] [|j] //=; rewrite IH. Qed.
+
+Lemma size_remove_nth (T : Type) (j : nat) (l : seq T) : (j < size l)%N -> size (remove_nth j l) = (size l).-1.
+Proof. by elim: l j => [|x l IH] [|j] //= Hj; rewrite IH //; case: (l) Hj. Qed.
+
+Definition pdet_step (f : nat) (rest : seq (seq (seq Z))) (acc : nat * seq Z) (a : seq Z) : nat * seq Z :=
+  let j := acc.1 in
+  let minor := List.map (remove_nth j) rest in
+  let t := if pis_zero a then [::] else pmul a (pdet f minor) in
+  (j.+1, if Nat.even j then padd acc.2 t else psub acc.2 t).
+
+Lemma pdet_S f row rest : pdet f.+1 (row :: rest) = (List.fold_left (pdet_step f rest) row (0%N, [::])).2.
+Proof. by []. Qed.
+
+Lemma pdet_fold f rest (l : seq (seq Z)) (j0 : nat) (acc : seq Z) :
+  Poly (List.fold_left (pdet_step f rest) l (j0, acc)).2 =
+  Poly acc + \sum_(k < size l) (-1) ^+ (j0 + k) * (Poly (nth [::] l k) * Poly (pdet f (map (remove_nth (j0 + k)) rest))).
+Proof.
+elim: l j0 acc => [|a l IH] j0 acc /=; first by rewrite big_ord0 addr0.
+rewrite /pdet_step /= IH big_ord_recl /= addn0 addrA; congr (_ + _); last first.
+  by apply: eq_bigr => k _; rewrite /bump /= add1n addnS addSn.
+have Et : Poly (if pis_zero a then [::] else pmul a (pdet f (List.map (remove_nth j0) rest))) =
+          Poly a * Poly (pdet f (map (remove_nth j0) rest)).
+  by case E: (pis_zero a); rewrite ?Poly_pmul // (pis_zeroP _ E) mul0r.
+rewrite Nat_even_odd -signr_odd; case: (odd j0) => /=.
+  by rewrite Poly_psub Et expr1 mulN1r.
+by rewrite Poly_padd Et expr0 mul1r.
+Qed.
+
+Theorem pdet_det n (m : seq (seq (seq Z))) :
+  size m = n -> all (fun r : seq (seq Z) => size r == n) m -> Poly (pdet n m) = \det (mxP n m).
+Proof.
+elim: n m => [|n IH] m Hm Hall; first by rewrite det_mx00 /= cons_poly_def mul0r add0r.
+case: m Hm Hall => [|row rest] // [Hrest]; rewrite [all _ _]/= => /andP[/eqP Hrow Hall].
+rewrite pdet_S pdet_fold /= add0r Hrow (expand_det_row _ ord0).
+apply: eq_bigr => j _; rewrite add0n /cofactor mxE /= add0n mulrCA; congr (_ * (_ * _)).
+rewrite IH ?size_map //; last first.
+  rewrite all_map; apply/allP => r Hr /=; have /eqP Hs := allP Hall r Hr.
+  by rewrite size_remove_nth Hs.
+congr (\det _); apply/matrixP => i k; rewrite !mxE /=.
+rewrite (nth_map [::]) ?Hrest // remove_nth_drop nth_drop_nth.
+by [].
+Qed.
+
+(* the Laplace-expansion resultant is the classical resultant as well, hence equals the Bareiss one *)
+Theorem bires_ref_resultant (a b : seq (seq Z)) :
+  Poly (last [::] a) != 0 -> Poly (last [::] b) != 0 ->
+  Poly (bires_ref a b) = (-1) ^+ ((size a).-1 * (size b).-1) * resultant (BP a) (BP b).
+Proof.
+move=> Hla Hlb.
+have Ha : (0 < size a)%N by case: a Hla => //=; rewrite eqxx.
+have Hb : (0 < size b)%N by case: b Hlb => //=; rewrite eqxx.
+have [Hs Hall] := size_sylvester_rev Ha Hb.
+rewrite /bires_ref Poly_pnorm [length _]Hs (pdet_det Hs Hall) -(pdet_fast_det Hs Hall) -[RHS]bires_resultant //.
+by rewrite /bires Poly_pnorm.
+Qed.
+
+Theorem bires_ref_bires (a b : seq (seq Z)) :
+  Poly (last [::] a) != 0 -> Poly (last [::] b) != 0 -> bires_ref a b = bires a b.
+Proof.
+move=> Hla Hlb.
+have E : Poly (bires_ref a b) = Poly (bires a b) by rewrite bires_ref_resultant // bires_resultant.
+by move/Poly_inj_norm: E; rewrite /bires_ref /bires !GcdSpec.pnorm_idem.
+Qed.
